@@ -34,6 +34,8 @@ def configs(ctx):
     add('1d-p3-n2-d1', P1=3, N1=2, Disp=1, repr=True)
     add('1d-p2-n2-L4-d1', N1=2, MaxLev=4, Disp=1, MaxCalls=3, MarkCap=2)
     add('1d-p2-n3-d1-trunc', Disp=1, TruncMark=True)
+    # four levels, marks on several levels in one call; explored WITHOUT a view: every history is replayed, not one per space
+    add('1d-p1-n4-L4-d1-allhist', P1=1, N1=4, MaxLev=4, Disp=1, MaxCalls=3, MarkCap=2, workers=6)
     add('2d-p1-2x2-inf', D=2, P1=1, P2=1, N1=2, N2=2, MaxCalls=2, MarkCap=2, workers=4)
     add('2d-p1-2x2-inf-repr', D=2, P1=1, P2=1, N1=2, N2=2, MaxCalls=2, MarkCap=1, workers=4, repr=True)
     add('2d-p12-2x2-d1', D=2, P1=1, P2=2, N1=2, N2=2, Disp=1, MaxCalls=2, MarkCap=2, workers=4)
@@ -256,7 +258,7 @@ def run(ctx):
     def one(item):
         name, consts, workers, rep, sim = item
         cfg = write_cfg(ctx.scratch / ('hs_%s.cfg' % name), consts, invariants=INVS + (['BasisOK'] if rep else []),
-                        view='View')
+                        view=None if name.endswith('-allhist') else 'View')
         if sim:
             return name, consts, ctx.tlc('HSpace', cfg, workers=workers, timeout=3000, simulate=sim[0], depth=sim[1],
                                          seed=ctx.seed + 17)
